@@ -241,6 +241,9 @@ func (c14) RunCase(c *fw.Ctx, rng *fw.RNG, batch, i int) {
 					clean = false
 				}
 			}
+			if positions%7 == 0 {
+				c14PathAlgebra(c, p, segs)
+			}
 			if clean {
 				c.Count("string_roundtrips", 1)
 				var back []string
@@ -326,4 +329,49 @@ func (c14) RunCase(c *fw.Ctx, rng *fw.RNG, batch, i int) {
 	}
 	_ = cid.Undef
 	_ = cidlink.Link{}
+}
+
+// c14PathAlgebra: the Path helpers a caller combines walk-reported paths with (Parent, Pop, Truncate, Last,
+// Shift, Join, AppendSegment) are list operations on the segments, and none of them changes the path it was
+// called on. (A surviving mechanical mutant made Parent return the path itself.)
+func c14PathAlgebra(c *fw.Ctx, p datamodel.Path, segs []string) {
+	c.Guard("C14:path-helpers", func() {
+		c.Count("path_algebra_checks", 1)
+		n := len(segs)
+		same := func(what string, got datamodel.Path, want []string) {
+			g := pathSegs(got)
+			if len(g) != len(want) || strings.Join(g, "\x00") != strings.Join(want, "\x00") {
+				c.Deviate("C14:path-helper:"+what, fmt.Sprintf("Path%q.%s has segments %q, expected %q", segs, what, g, want))
+			}
+		}
+		if p.Len() != n {
+			c.Deviate("C14:path-helper:Len", fmt.Sprintf("Path%q.Len() = %d", segs, p.Len()))
+		}
+		same("Parent()", p.Parent(), segs[:n-1])
+		same("Pop()", p.Pop(), segs[:n-1])
+		for i := 0; i <= n; i++ {
+			same(fmt.Sprintf("Truncate(%d)", i), p.Truncate(i), segs[:i])
+		}
+		if l := p.Last().String(); l != segs[n-1] {
+			c.Deviate("C14:path-helper:Last()", fmt.Sprintf("Path%q.Last() = %q", segs, l))
+		}
+		first, rest := p.Shift()
+		if first.String() != segs[0] {
+			c.Deviate("C14:path-helper:Shift()", fmt.Sprintf("Path%q.Shift() yields first segment %q", segs, first.String()))
+		}
+		same("Shift() remainder", rest, segs[1:])
+		same("Join(self)", p.Join(p), append(append([]string(nil), segs...), segs...))
+		same("Parent().Join(Truncate(1))", p.Parent().Join(p.Truncate(1)), append(append([]string(nil), segs[:n-1]...), segs[0]))
+		a1 := p.Parent().AppendSegmentString("x-sibling")
+		a2 := p.Parent().AppendSegmentString("y-sibling")
+		same("Parent().AppendSegmentString(x)", a1, append(append([]string(nil), segs[:n-1]...), "x-sibling"))
+		same("Parent().AppendSegmentString(y)", a2, append(append([]string(nil), segs[:n-1]...), "y-sibling"))
+		same("AppendSegmentInt(7)", p.AppendSegmentInt(7), append(append([]string(nil), segs...), "7"))
+		e := datamodel.Path{}
+		same("EmptyPath.Parent()", e.Parent(), nil)
+		same("EmptyPath.Pop()", e.Pop(), nil)
+		same("EmptyPath.Join(p)", e.Join(p), segs)
+		// the path itself is what it was
+		same("(the path after the helpers were used)", p, segs)
+	})
 }
